@@ -238,7 +238,8 @@ fn check_reader(c: i32) -> Result<(), Fail> {
             if r.header().shape_type as i32 != c {
                 return Err(Fail::new("header-type", format!(".shp header code {} decoded as {:?} (code {}) when the .shx header carries code {}", c, r.header().shape_type, r.header().shape_type as i32, b)));
             }
-            match r.iter_shapes().next() {
+            let first = r.iter_shapes().next();
+            match first {
                 Some(Ok(s)) if variant_ty(&s) == base_ty && s.shapetype() as i32 == c => {}
                 other => {
                     return Err(Fail::new(
